@@ -11,6 +11,7 @@ import (
 	"encoding/json"
 	"fmt"
 	"go/types"
+	"golang.org/x/tools/go/ssa"
 	"os"
 	"os/exec"
 	"path/filepath"
@@ -366,6 +367,40 @@ func castJoinJobs(e *Engine) []*Job {
 		sort.Strings(tl)
 		detail := fmt.Sprintf("schema types %v; Go type %v; %s", tl, gt, how)
 		jobs = append(jobs, structJob("C08/join["+k+"]", "join", how != "", detail, ""))
+	}
+	// the two cooperating string->typed conversion sites use the same converters: every converter function
+	// the interpolation cast table names is also the one the decode-time cast hook (loader.cast) calls,
+	// so a value typed by either route is parsed by the same grammar
+	castFn := e.byKey["loader.cast"]
+	callees := map[string]bool{}
+	if castFn != nil {
+		for _, b := range castFn.Blocks {
+			for _, ins := range b.Instrs {
+				if ci, ok := ins.(ssa.CallInstruction); ok {
+					if sc := ci.Common().StaticCallee(); sc != nil {
+						callees[sc.String()] = true
+					}
+				}
+			}
+		}
+	}
+	conv := map[string]bool{}
+	for _, fn := range rows {
+		conv[fn] = true
+	}
+	var convs []string
+	for fn := range conv {
+		convs = append(convs, fn)
+	}
+	sort.Strings(convs)
+	for _, fn := range convs {
+		short := fn[strings.LastIndex(fn, "/")+1:]
+		if strings.Contains(short, ".func") || strings.Contains(short, "$") {
+			continue // anonymous row function: not a shared named converter
+		}
+		ok := castFn != nil && callees[fn]
+		jobs = append(jobs, structJob("C08/join/shared-converter["+short+"]", "join", ok,
+			fmt.Sprintf("cast table converter %s is called by the decode-time hook loader.cast: %v", fn, ok), ""))
 	}
 	jobs = append(jobs, structJob("C08/join/coverage", "join", true, fmt.Sprintf("%d schema leaves, %d cast-table rows, %d leaves without a Go field by yaml tags (not decided)", len(keys), len(rows), unmapped), ""))
 	return jobs
